@@ -82,9 +82,28 @@ def run_proof(prop, tier):
     timeout_ms = 10000 if tier == "quick" else 30000
     ctx = mp.get_context("spawn")
     reps = []
-    with cf.ProcessPoolExecutor(max_workers=min(16, max(1, n)), mp_context=ctx) as ex:
-        for rep in ex.map(_verify_one, [(modname, i, timeout_ms) for i in range(n)]):
-            reps.append(rep)
+    # one contract must never stall the whole check: beyond the budget it is reported out of reach
+    budget = 600 if tier == "quick" else 2400
+    ex = cf.ProcessPoolExecutor(max_workers=min(16, max(1, n)), mp_context=ctx)
+    try:
+        futs = [ex.submit(_verify_one, (modname, i, timeout_ms)) for i in range(n)]
+        t_end = time.time() + budget
+        for i, f in enumerate(futs):
+            try:
+                reps.append(f.result(timeout=max(1.0, t_end - time.time())))
+            except cf.TimeoutError:
+                reps.append({"function": "%s[%d]" % (modname, i), "name": "%s[%d]" % (modname, i), "contract_index": i,
+                             "verdicts": [{"name": "%s[%d]/time-budget" % (modname, i), "status": "out_of_reach", "backend": None,
+                                           "seconds": None, "note": "verification exceeded the wall-clock budget of the check", "model": None}]})
+    finally:
+        procs = list(getattr(ex, "_processes", {}).values())
+        ex.shutdown(wait=False, cancel_futures=True)
+        for pr in procs:
+            try:
+                if pr.is_alive():
+                    pr.kill()
+            except Exception:
+                pass
     return {"module": modname, "reports": reps, "assumptions": getattr(mod, "ASSUMPTIONS", []),
             "level_note": getattr(mod, "LEVEL_NOTE", "")}
 
@@ -105,13 +124,35 @@ def run_bounded(prop, tier, seed):
     env["PYTHONWARNINGS"] = "ignore"
     py = BOUNDED_PY.get(prop, VENV_PY)
     t0 = time.time()
+    # own session: on a time-out the whole process group (worker pools included) is killed, and a
+    # memory limit keeps a run-away enumeration on a changed tree from exhausting the machine
+    import signal
+
+    def _limits():
+        os.setsid()
+        try:
+            import resource
+            cap = 12 * 1024 ** 3
+            resource.setrlimit(resource.RLIMIT_AS, (cap, cap))
+        except Exception:
+            pass
+    pr = subprocess.Popen([py, "-m", "bounded.run", prop, "--tier", tier, "--seed", str(seed), "--out", out],
+                          cwd=HERE, env=env, stdout=subprocess.PIPE, stderr=subprocess.PIPE, text=True, preexec_fn=_limits)
     try:
-        p = subprocess.run([py, "-m", "bounded.run", prop, "--tier", tier, "--seed", str(seed), "--out", out],
-                           cwd=HERE, env=env, capture_output=True, text=True,
-                           timeout=(600 if tier == "quick" else 3600))
-        err = p.stderr[-2000:]
+        _, err = pr.communicate(timeout=(900 if tier == "quick" else 3600))
+        err = (err or "")[-2000:]
     except subprocess.TimeoutExpired:
+        try:
+            os.killpg(pr.pid, signal.SIGKILL)
+        except Exception:
+            pr.kill()
+        pr.communicate()
         return {"status": "timeout", "wall_s": time.time() - t0}
+    finally:
+        try:
+            os.killpg(pr.pid, signal.SIGKILL)      # stray workers of a finished run
+        except Exception:
+            pass
     if not os.path.exists(out):
         return {"status": "crash", "traceback": err, "wall_s": time.time() - t0}
     with open(out) as f:
@@ -288,7 +329,8 @@ def decide(prop, tier, seed):
             lines.append("VIOLATION property=%s replay=%s" % (prop, pr["path"]))
             lines.append("  clause=probe/%s witness=%s" % (pr["name"], wit))
         elif pr["reproduced"] is None:
-            checker_error.append("probe %s did not run to completion: %s" % (pr["name"], pr["output"][-600:]))
+            # a probe that neither passed nor reproduced (crash / time-out) decides nothing
+            print("PROBE-UNDECIDED: %s: %s" % (pr["name"], pr["output"][-300:].replace("\n", " | ")), file=sys.stderr)
     for (v, rep) in refuted_new:
         reproduced = False
         path = None
